@@ -148,7 +148,18 @@ pub enum Transfer {
     /// Exactly up to the end of the first non-empty buffer of the request.
     FirstBuffer,
     Frac(u16),
+    /// The kernel fails the request with an errno (index into `FAIL_ERRNOS`):
+    /// the composite must fail with exactly that error and submit nothing
+    /// more.
+    Fail(u8),
+    /// The kernel interrupts the request (-EINTR, or -ECANCELED if true): a10
+    /// re-issues it unchanged and the caller notices nothing.
+    Interrupt(bool),
 }
+
+/// Errors the kernel reports for a request of a composite (none of them is
+/// an interruption that a10 restarts).
+const FAIL_ERRNOS: [i32; 10] = [libc::EIO, libc::ENOSPC, libc::EPIPE, libc::ECONNRESET, libc::EAGAIN, libc::EBADF, libc::ENOMEM, libc::EFBIG, libc::ENOTCONN, libc::EDQUOT];
 
 const SEND_FLAGS: [u32; 6] = [libc::MSG_CONFIRM as u32, libc::MSG_DONTROUTE as u32, libc::MSG_EOR as u32, libc::MSG_MORE as u32, libc::MSG_OOB as u32, libc::MSG_FASTOPEN as u32];
 const RECV_FLAGS: [u32; 5] = [libc::MSG_CMSG_CLOEXEC as u32, libc::MSG_ERRQUEUE as u32, libc::MSG_OOB as u32, libc::MSG_PEEK as u32, libc::MSG_WAITALL as u32];
@@ -216,6 +227,12 @@ struct Driver {
     /// Non-select requests: (address, size) of the destination.
     direct: Vec<(usize, usize)>,
     abandon_after: Option<u8>,
+    /// The errno with which a request was failed (`Transfer::Fail`) and the
+    /// number of requests answered normally before it.
+    failed: Option<(i32, usize)>,
+    /// The request that was interrupted last and not yet seen again.
+    interrupted: Option<Sqe>,
+    interrupts: usize,
 }
 
 fn push_span(spans: &mut Vec<(usize, usize)>, addr: usize, len: usize) {
@@ -243,6 +260,47 @@ impl Driver {
             return;
         }
         let sqe = req.sqe;
+        if let Some((errno, _)) = self.failed {
+            self.errors.push(("request-after-error".into(), format!("the kernel failed a request with errno {errno}, yet another request ({}) was submitted", abi::opcode_name(sqe.opcode))));
+            ring.complete(serial, -libc::EINVAL, 0, false);
+            return;
+        }
+        if let Some(prev) = self.interrupted.take() {
+            if prev != sqe {
+                self.errors.push(("restart-differs".into(), format!("the request re-issued after an interruption differs from the interrupted one: {prev:?} vs {sqe:?}")));
+            }
+        }
+        match self.transfers.get(self.next).copied() {
+            Some(Transfer::Fail(k)) => {
+                self.next += 1;
+                let errno = FAIL_ERRNOS[k as usize % FAIL_ERRNOS.len()];
+                self.failed = Some((errno, self.seen.len()));
+                let zc = matches!(sqe.opcode, abi::OP_SEND_ZC | abi::OP_SENDMSG_ZC);
+                if zc && k as usize / FAIL_ERRNOS.len() % 2 == 0 {
+                    // A failed zero-copy send may still post its notification.
+                    self.zc_ops = true;
+                    ring.complete(serial, -errno, 0, true);
+                    if let Some(r) = ring.req_mut(serial) {
+                        r.zc_notif_pending = true;
+                    }
+                    ring.complete(serial, 0, abi::CQE_F_NOTIF, false);
+                } else {
+                    ring.complete(serial, -errno, 0, false);
+                }
+                return;
+            }
+            Some(Transfer::Interrupt(cancelled)) if self.interrupts < 6 => {
+                self.next += 1;
+                self.interrupts += 1;
+                self.interrupted = Some(sqe);
+                ring.complete(serial, if cancelled { -libc::ECANCELED } else { -libc::EINTR }, 0, false);
+                return;
+            }
+            Some(Transfer::Interrupt(_)) => {
+                self.next += 1;
+            }
+            _ => {}
+        }
         if !self.is_write && sqe.flags & abi::IOSQE_BUFFER_SELECT != 0 && matches!(sqe.opcode, abi::OP_READ | abi::OP_RECV) {
             // The kernel picks the buffer (K8).
             let Some(entry) = ring.select_buffer(sqe.buf_group) else {
@@ -256,7 +314,7 @@ impl Driver {
             let n = match t {
                 Transfer::Zero => 0,
                 Transfer::One => size.min(1),
-                Transfer::All | Transfer::FirstBuffer => size,
+                Transfer::All | Transfer::FirstBuffer | Transfer::Fail(_) | Transfer::Interrupt(_) => size,
                 Transfer::Frac(f) => ((f as usize) * (size + 1)) >> 16,
             };
             if track::residence(entry.addr as usize, size) == track::Residence::Unknown {
@@ -291,7 +349,7 @@ impl Driver {
         let n = match t {
             Transfer::Zero => 0,
             Transfer::One => size.min(1),
-            Transfer::All => size,
+            Transfer::All | Transfer::Fail(_) | Transfer::Interrupt(_) => size,
             Transfer::FirstBuffer => first.min(size),
             Transfer::Frac(f) => ((f as usize) * (size + 1)) >> 16,
         };
@@ -334,6 +392,25 @@ impl Driver {
             ring.complete(serial, n as i32, 0, false);
         }
     }
+}
+
+const FAULT_JUDGED: &str = "fault-judged";
+
+/// When the script failed a request with an errno the composite must fail
+/// with exactly that error (and must not have submitted anything after it,
+/// which the driver reports itself); the ordinary oracle, which describes a
+/// kernel that reports no error, is skipped for the result in that case.
+fn fault_filter<T>(driver: &Driver, result: Result<io::Result<T>, String>) -> (Result<io::Result<T>, String>, Vec<(&'static str, String)>) {
+    let Some((errno, after)) = driver.failed else { return (result, Vec::new()) };
+    let mut reports = Vec::new();
+    match &result {
+        // Stuck, panicked or abandoned: judged by the ordinary arm.
+        Err(_) => return (result, reports),
+        Ok(Ok(_)) => reports.push(("ok-after-error", format!("returned Ok although the kernel failed request {after} with errno {errno}"))),
+        Ok(Err(e)) if e.raw_os_error() == Some(errno) => {}
+        Ok(Err(e)) => reports.push(("wrong-error", format!("failed with {e:?} although the kernel failed request {after} with errno {errno}"))),
+    }
+    (Err(FAULT_JUDGED.to_string()), reports)
 }
 
 struct DriverPtr(*mut Driver);
@@ -425,6 +502,8 @@ fn transfer() -> impl Strategy<Value = Transfer> {
         3 => Just(Transfer::All),
         3 => Just(Transfer::FirstBuffer),
         6 => any::<u16>().prop_map(Transfer::Frac),
+        1 => any::<u8>().prop_map(Transfer::Fail),
+        1 => any::<bool>().prop_map(Transfer::Interrupt),
     ]
 }
 
@@ -530,7 +609,7 @@ fn run_case(case: &Case, ctx: &mut Ctx) {
     let fd = world.new_fd();
     let afd = world.fd(fd);
     let mut classes: Vec<&'static str> = Vec::new();
-    let mut driver = Driver { is_write: case.op.is_write(), transfers: case.transfers.clone(), next: 0, stream: Vec::new(), delivered: 0, seen: Vec::new(), errors: Vec::new(), zc_ops: false, phantom: case.phantom.is_some(), spans: Vec::new(), selected: Vec::new(), direct: Vec::new(), abandon_after: case.abandon_after };
+    let mut driver = Driver { is_write: case.op.is_write(), transfers: case.transfers.clone(), next: 0, stream: Vec::new(), delivered: 0, seen: Vec::new(), errors: Vec::new(), zc_ops: false, phantom: case.phantom.is_some(), spans: Vec::new(), selected: Vec::new(), direct: Vec::new(), abandon_after: case.abandon_after, failed: None, interrupted: None, interrupts: 0 };
     let zc = case.zc && matches!(case.op, Op::SendAll | Op::SendAllVectored);
 
     let report = |ctx: &mut Ctx, kind: &str, msg: String| {
@@ -653,7 +732,18 @@ fn run_case(case: &Case, ctx: &mut Ctx) {
             report(ctx, &k, m);
         }
         let zero_at = driver.seen.iter().position(|s| s.n == 0);
+        let (result, fault_reports) = fault_filter(&driver, result);
+        for (k, m) in fault_reports {
+            report(ctx, k, m);
+        }
+        if driver.failed.is_some() {
+            classes.push("kernel-error");
+        }
+        if driver.interrupts > 0 {
+            classes.push("interrupted");
+        }
         match result {
+            Err(e) if e == FAULT_JUDGED => {}
             Err(e) => {
                 let (k, m) = e.split_once(':').unwrap_or(("stuck", &e));
                 report(ctx, k, m.to_string());
@@ -834,7 +924,18 @@ fn run_case(case: &Case, ctx: &mut Ctx) {
                 break;
             }
         }
+        let (result, fault_reports) = fault_filter(&driver, result);
+        for (k, m) in fault_reports {
+            report(ctx, k, m);
+        }
+        if driver.failed.is_some() {
+            classes.push("kernel-error");
+        }
+        if driver.interrupts > 0 {
+            classes.push("interrupted");
+        }
         match result {
+            Err(e) if e == FAULT_JUDGED => {}
             Err(e) => {
                 let (k, m) = e.split_once(':').unwrap_or(("stuck", &e));
                 report(ctx, k, m.to_string());
@@ -1109,7 +1210,18 @@ fn run_phantom(case: &Case, specs: &[PhantomSpec], world: &mut World, afd: &'sta
         }
         let zero_at = driver.seen.iter().position(|s| s.n == 0);
         let accepted: u64 = driver.spans.iter().map(|s| s.1 as u64).sum();
+        let (result, fault_reports) = fault_filter(&driver, result);
+        for (k, m) in fault_reports {
+            report(ctx, k, m);
+        }
+        if driver.failed.is_some() {
+            classes.push("kernel-error");
+        }
+        if driver.interrupts > 0 {
+            classes.push("interrupted");
+        }
         match result {
+            Err(e) if e == FAULT_JUDGED => {}
             Err(e) => {
                 let (k, m) = e.split_once(':').unwrap_or(("stuck", &e));
                 report(ctx, k, format!("{m} (buffers {originals:?}, requests {})", fmt_reqs(&driver.seen)));
@@ -1261,7 +1373,18 @@ fn run_phantom(case: &Case, specs: &[PhantomSpec], world: &mut World, afd: &'sta
             m.2 += take;
             left -= take;
         }
+        let (result, fault_reports) = fault_filter(&driver, result);
+        for (k, m) in fault_reports {
+            report(ctx, k, m);
+        }
+        if driver.failed.is_some() {
+            classes.push("kernel-error");
+        }
+        if driver.interrupts > 0 {
+            classes.push("interrupted");
+        }
         match result {
+            Err(e) if e == FAULT_JUDGED => {}
             Err(e) => {
                 let (k, m) = e.split_once(':').unwrap_or(("stuck", &e));
                 report(ctx, k, format!("{m} (buffers (base, capacity, filled) {model:x?}, n {n}, requests {})", fmt_reqs(&driver.seen)));
@@ -1468,7 +1591,18 @@ fn run_pool(case: &Case, spec: &PoolSpec, world: &mut World, afd: &'static a10::
         }
     }
     let mut returned: Option<ReadBuf> = None;
+    let (result, fault_reports) = fault_filter(&driver, result);
+    for (k, m) in fault_reports {
+        report(ctx, k, m);
+    }
+    if driver.failed.is_some() {
+        classes.push("kernel-error");
+    }
+    if driver.interrupts > 0 {
+        classes.push("interrupted");
+    }
     match result {
+        Err(e) if e == FAULT_JUDGED => {}
         Err(e) => {
             let (k, m) = e.split_once(':').unwrap_or(("stuck", &e));
             report(ctx, k, m.to_string());
